@@ -28,7 +28,7 @@ theorem C20_optionsOf_default :
   decide
 
 /-- The variant that forgets the two negations is distinguishable: the spec theorem has content. -/
-theorem C20_asFound_unnegated_differs :
+theorem C20_unnegated_variant_differs :
     ∃ f, optionsOf false f ≠ optionsOf true f := ⟨{}, by decide⟩
 
 example : optionsOf true { style := .compressed, loadPaths := ["a", "b"], quiet := true, noUnicode := true } =
